@@ -711,6 +711,27 @@ func (g *corpusGen) nestingFamilies() {
 
 func (g *corpusGen) sizeFamilies() {
 	r := g.r
+	// very long lists of cheap entries (the first id of the table is found at once), with
+	// invalid entries at the first, a middle and the last position: chunked or parallel
+	// walks must still report them in argument order (thresholds 64 / 128 / 256 / 512 / 1024)
+	cheap := g.active[0]
+	for _, n := range []int{70, 140, 300, 600, 1100} {
+		g.fam++
+		l := make([]string, n)
+		for i := range l {
+			l[i] = cheap
+		}
+		ok := append([]string{}, l...)
+		l[0], l[n/2], l[n-1] = "NOT-A-LICENSE-FIRST", "NOT-A-LICENSE-MIDDLE", "NOT-A-LICENSE-LAST"
+		two := append([]string{}, ok...)
+		two[1], two[n-2] = "BAD ONE", "BAD-TWO"
+		g.add(proto.Call{Fn: proto.FnValidate, List: ok, Fam: g.fam, Tag: "size"})
+		g.add(proto.Call{Fn: proto.FnValidate, List: l, Fam: g.fam, Tag: "size"})
+		g.add(proto.Call{Fn: proto.FnValidate, List: two, Fam: g.fam, Tag: "size"})
+		g.add(proto.Call{Fn: proto.FnSatisfies, Expr: cheap, List: ok, Fam: g.fam, Tag: "size"})
+		g.add(proto.Call{Fn: proto.FnSatisfies, Expr: cheap, List: l, Fam: g.fam, Tag: "size"})
+		g.add(proto.Call{Fn: proto.FnSatisfies, Expr: cheap, List: two, Fam: g.fam, Tag: "size"})
+	}
 	uniq := func(n int) []string {
 		ids := make([]string, 0, n)
 		for len(ids) < n {
@@ -744,6 +765,8 @@ func (g *corpusGen) sizeFamilies() {
 		l := append([]string{}, ids...)
 		l[n/3] = l[0]
 		l[n/2] = "NOT-A-LICENSE-" + strconv.Itoa(n)
+		l[n-1] = "ALSO-NOT-A-LICENSE-" + strconv.Itoa(n)
+		l[1] = "FIRST BAD ENTRY"
 		g.add(proto.Call{Fn: proto.FnValidate, List: ids, Fam: g.fam, Tag: "size"})
 		g.add(proto.Call{Fn: proto.FnValidate, List: l, Fam: g.fam, Tag: "size"})
 		g.add(proto.Call{Fn: proto.FnSatisfies, Expr: ids[n-1], List: ids, Fam: g.fam, Tag: "size"})
